@@ -839,9 +839,6 @@ func (m *MonC12) classify(s *Snap, msg string) (string, string) {
 			}
 		}
 	}
-	if inflated && excess.Sign() > 0 && covered.Cmp(sumE) >= 0 && shortfall.Cmp(new(big.Rat).Add(excess, res)) <= 0 {
-		return "slash-inflation", fmt.Sprintf("pool holds %s%s, exact entitlements at receipt sum to %s, but index x current token value sums to %s because a slash inflated position values after the rewards accrued (shortfall of this claim %s)", s.BalOf(w.PoolAddr, denom), denom, ratStr(sumE), ratStr(sumQ), ratStr(shortfall))
-	}
 	// rounder-overclaim: a claim multiplies the index by the REPORTED token value floor(value + 0.01);
 	// for a position whose exact value is just below a whole number that is more than the value the
 	// index was computed for, so the claims on a validator can exceed what was received for it
@@ -855,6 +852,15 @@ func (m *MonC12) classify(s *Snap, msg string) (string, string) {
 				maxRel = rel
 			}
 		}
+	}
+	rounderBound := new(big.Rat)
+	if maxRel.Sign() > 0 {
+		fl := new(big.Rat).Add(ratInt(want), ratInt(have))
+		fl.Add(fl, pool)
+		rounderBound.Mul(fl, maxRel)
+	}
+	if inflated && excess.Sign() > 0 && covered.Cmp(sumE) >= 0 && shortfall.Cmp(new(big.Rat).Add(new(big.Rat).Add(excess, res), rounderBound)) <= 0 {
+		return "slash-inflation", fmt.Sprintf("pool holds %s%s, exact entitlements at receipt sum to %s, but index x current token value sums to %s because a slash inflated position values after the rewards accrued (shortfall of this claim %s)", s.BalOf(w.PoolAddr, denom), denom, ratStr(sumE), ratStr(sumQ), ratStr(shortfall))
 	}
 	if maxRel.Sign() > 0 {
 		flows := new(big.Rat).Add(ratInt(want), ratInt(have))
